@@ -27,6 +27,11 @@ Rules on the -O1 -fno-inline IR (every CNL function still a function):
     (its local predicate oob); a room test that is the constant true for some significand type means the significand
     is never scaled up and every fractional digit is dropped (constant false: it overflows).  No oob predicate of any
     descale instantiation reached may be a constant function.
+ R9 (first sentence, one step of the digit generator) in every to_chars_natural<T> for a built-in T the value handed to
+    the recursive call is value / base, and the character stored is itoc(value mod base) — written either as a remainder
+    or as value - (value / base) * base — both in T's own signedness; itoc is the digit alphabet 0-9a-z on all 36 digit
+    values.  (That the recursion then produces the canonical numeral is the usual induction; the induction itself is
+    not mechanised.)
 Not decided: digit generation, truncation direction, exponent after rescaling (loops over run-time digits).
 """
 import re, os
@@ -119,6 +124,87 @@ R7_SRC = "".join('extern "C" void r7_%d(scaled_integer<%s, power<%d, %d>> const&
 R7_SRC += 'extern "C" long r7_control(long const& v) { long s = v; for (int n = 3; n != 0;) { if (s % 10 == 0) { s /= 10; continue; } if (s < 1000) { s *= 2; --n; } } return s; }\n'
 
 
+R9_TYPES = [("std::int8_t", 8, True), ("std::uint8_t", 8, False), ("std::int16_t", 16, True), ("std::uint16_t", 16, False), ("int", 32, True), ("unsigned", 32, False),
+            ("long long", 64, True), ("unsigned long long", 64, False), ("cnl::int128_t", 128, True), ("cnl::uint128_t", 128, False)]
+R9_SRC = "".join('extern "C" char* r9_%d(char* p, char* l, %s const& v, int b) { return cnl::_impl::to_chars_natural(p, l, v, b); }\n' % (i, t) for i, (t, w, sg) in enumerate(R9_TYPES))
+
+
+def r9_step(mod, fn, width, signed, dem=None):
+    """[(problem)] for one to_chars_natural instantiation on a built-in type; raises AnalysisBroken when the shape is not
+    the straight-line one the rule reads"""
+    from vlib import gate
+    lines = [l for lab in fn.order for l in fn.blocks[lab] if "llvm.dbg" not in l and "llvm.lifetime" not in l]
+    defs = dict((m.group(1), m.group(2)) for l in lines for m in [re.match(r"^(%\S+)\s*=\s*(.*)$", l)] if m)
+    vptr, base = fn.params[2][1], fn.params[3][1]
+    stores = {}
+    for l in lines:
+        m = re.match(r"^store (\S+) (\S+), \S+ (%[^\s,]+)", l)
+        if m:
+            stores.setdefault(m.group(3), []).append((m.group(1), m.group(2)))
+    ty = "i%d" % width
+
+    def ex(v, t, depth=0):
+        if depth > 40:
+            raise tc.AnalysisBroken("R9: expression too deep")
+        v = v.strip()
+        if re.fullmatch(r"-?\d+", v):
+            return gate.C(gate._bits(t) or width, int(v))
+        if v == base:
+            return ("arg", 1, "i32")
+        if v not in defs:
+            raise tc.AnalysisBroken("R9: unknown value " + v)
+        d = ir._DROP_RE.sub("", defs[v])
+        d = re.sub(r",\s*align \d+", "", d)
+        d = re.sub(r"\s+", " ", d).strip()
+        m = re.match(r"^load (\S+), \S+ (%\S+)$", d)
+        if m:
+            if m.group(2) == vptr:
+                return ("arg", 0, m.group(1))
+            st = stores.get(m.group(2), [])
+            if len(st) == 1:
+                return ex(st[0][1], st[0][0], depth + 1)
+            raise tc.AnalysisBroken("R9: load from a location with %d stores" % len(st))
+        m = re.match(r"^(add|sub|mul|sdiv|udiv|srem|urem) (\S+) ([^,]+), (.+)$", d)
+        if m:
+            return gate.mk_bin(m.group(1), m.group(2), ex(m.group(3), m.group(2), depth + 1), ex(m.group(4), m.group(2), depth + 1))
+        m = re.match(r"^(sext|zext|trunc) (\S+) (\S+) to (\S+)$", d)
+        if m:
+            return gate.mk_cast(m.group(1), m.group(2), ex(m.group(3), m.group(2), depth + 1), m.group(4))
+        raise tc.AnalysisBroken("R9: instruction not modelled: " + d[:80])
+    probs = []
+    V = ("arg", 0, ty)
+    B = gate.mk_cast("sext", "i32", ("arg", 1, "i32"), ty) if width > 32 else (("arg", 1, "i32") if width == 32 else None)
+    # the recursive call's value argument
+    rec = [l for l in lines for m_ in [re.search(r"call [^@]*@([\w.$]+)\(", l)] if m_ and re.match(r"^(char\* )?cnl::_impl::to_chars_natural<", (dem or {}).get(m_.group(1), ""))]
+    itc = [l for l in lines if re.search(r"call [^@]*@_ZN3cnl5_impl4itocEi\(", l)]
+    if len(rec) != 1 or len(itc) != 1:
+        raise tc.AnalysisBroken("R9: expected one recursive call and one itoc call, found %d and %d" % (len(rec), len(itc)))
+    rargs = [a.strip().split(" ")[-1] for a in ir._split_top(re.search(r"@[\w.$]+\((.*)\)", rec[0]).group(1))]
+    st = stores.get(rargs[2], [])
+    if len(st) != 1:
+        raise tc.AnalysisBroken("R9: the recursive call's value is not a single-assignment local")
+    q = ex(st[0][1], st[0][0])
+    iarg = [a.strip().split(" ")[-1] for a in ir._split_top(re.search(r"@[\w.$]+\((.*)\)", itc[0]).group(1))][0]
+    rem = ex(iarg, "i32")
+    # what the property requires, in T promoted as C++ promotes it (sub-int types compute in int)
+    if width < 32:
+        Vp = gate.mk_cast("sext" if signed else "zext", ty, V, "i32")
+        want_q = gate.mk_bin("sdiv", "i32", Vp, ("arg", 1, "i32"))      # the quotient is an int: the recursion continues in to_chars_natural<int>
+        wants_r = [gate.mk_bin("srem", "i32", Vp, ("arg", 1, "i32"))]
+    else:
+        dv, rm = ("sdiv", "srem") if signed else ("udiv", "urem")
+        want_q = gate.mk_bin(dv, ty, V, B)
+        wr = gate.mk_bin(rm, ty, V, B)
+        wants_r = [wr if width == 32 else gate.mk_cast("trunc", ty, wr, "i32")]
+    if q != want_q:
+        probs.append("the value handed to the recursive call is %s, not value / base (%s)" % (gate.show(q)[:120], gate.show(want_q)[:120]))
+    if rem not in wants_r:
+        probs.append("the digit handed to itoc is %s, not value mod base (%s)" % (gate.show(rem)[:140], gate.show(wants_r[0])[:140]))
+    if rargs[3] != base:
+        probs.append("the recursive call does not pass the base on")
+    return probs
+
+
 FORBIDDEN = [(r"^_ZNSolsE[a-z]$", "std::ostream::operator<<(arithmetic)"), (r"^_ZNSo9_M_insertI", "std::ostream::_M_insert<>"), (r"^_ZSt8to_chars", "std::to_chars"),
              (r"^_ZNSt7__cxx119to_stringE", "std::to_string"), (r"^v?s?n?printf$", "printf family"), (r"__to_chars", "std::__detail::__to_chars")]
 
@@ -126,7 +212,7 @@ FORBIDDEN = [(r"^_ZNSolsE[a-z]$", "std::ostream::operator<<(arithmetic)"), (r"^_
 def run(tier, seed, work):
     r = report.Run(PROP, tier, seed, "other")
     src = os.path.join(work, "t.cpp")
-    open(src, "w").write(SRC + R5_SRC + R6_SRC)
+    open(src, "w").write(SRC + R5_SRC + R6_SRC + R9_SRC)
     out = os.path.join(work, "t.ll")
     rc, so, se, cmd = tc.clang_ll(src, out, "o1ni")
     if rc != 0:
@@ -258,6 +344,31 @@ def run(tier, seed, work):
             r.violation("R8/" + d[:110], "%s: the room test is the constant `%s`: %s" % (d[:200], const_rets[0],
                         "the significand is never scaled up, every digit after the radix point is dropped" if "true" in const_rets[0] else "the significand is scaled up without limit"),
                         {"function": d, "ir": f.text()})
+    # R9: the digit alphabet (all 36 digit values of itoc; a finite table, read as constants)
+    from vlib import facts as factmod
+    IF = [factmod.Fact("itoc/%d" % k, "(int)cnl::_impl::itoc(%d)" % k, ord("0123456789abcdefghijklmnopqrstuvwxyz"[k])) for k in range(36)]
+    factmod.run_facts(work, IF, batch=50, tagbase="itoc")
+    for fa in IF:
+        if fa.status == "refuted":
+            r.violation("R9/" + fa.key, "cnl::_impl::itoc(%s) is %r, the digit alphabet 0-9a-z has %r there" % (fa.key.split("/")[1], chr(fa.value) if fa.value and 0 < fa.value < 128 else fa.value, chr(fa.expect)), {"fact": fa.key, "value": fa.value})
+        elif fa.status != "proved":
+            r.broke("R9 %s: %s" % (fa.key, fa.detail[:200]))
+    # R9: one step of the digit generator, built-in types
+    n_r9 = 0
+    for i, (t, w, sg) in enumerate(R9_TYPES):
+        e = "r9_%d" % i
+        nat = [x for x in edges.get(e, ()) if re.match(r"^(char\* )?cnl::_impl::to_chars_natural<", dem.get(x, ""))]
+        if len(nat) != 1 or nat[0] not in mod.functions:
+            r.broke("R9: to_chars_natural<%s> not found" % t)
+            continue
+        try:
+            probs = r9_step(mod, mod.functions[nat[0]], w, sg, dem)
+        except tc.AnalysisBroken as ex_:
+            r.broke("R9 %s: %s" % (t, ex_))
+            continue
+        n_r9 += 1
+        for pr in probs:
+            r.violation("R9/" + t, "cnl::_impl::to_chars_natural<%s>: %s" % (t, pr), {"type": t, "ir": mod.functions[nat[0]].text()})
     entries = [n for n in mod.functions if n.startswith("e_")]
     ok_entries, samples = 0, []
     for e in sorted(entries):
@@ -337,11 +448,12 @@ def run(tier, seed, work):
     common.floor_check(r, "R7 descale instantiations inspected", n_r7, 20)
     common.floor_check(r, "R7 loops inspected", n_r7_loops, 20)
     common.floor_check(r, "R8 room tests inspected", n_r8, 20)
+    common.floor_check(r, "R9 digit-generator steps read", n_r9, len(R9_TYPES))
     r.coverage = {
         "explanation": "Decided: the last sentence (the fixed-capacity entry points format through cnl::to_chars on the same value: reachability, forbidden-formatter and argument/derivation rules on -O1 -fno-inline IR) and one structural necessary condition of the sign/magnitude clause (R5: the working significand type of every to_chars<Rep> instantiation represents all of Rep). Digit generation, truncation direction and exponents are not decided.",
         "evaluations": len(entries) + n_static + n_r5 + n_r6, "distinct_nontrivial": ok_entries + n_static + n_r5 + n_r6,
         "rule": "non-trivial = entry point for which R1 and R2 hold, or to_chars_static instantiation for which R3 was evaluated",
-        "r5_instances": n_r5, "r6_generators": n_r6, "r7_descale_instances": n_r7, "r8_room_tests": n_r8, "r7_loops": n_r7_loops, "entry_points": len(entries) - 1, "entry_points_ok": ok_entries, "to_chars_static_instances": n_static,
+        "r5_instances": n_r5, "r6_generators": n_r6, "r7_descale_instances": n_r7, "r8_room_tests": n_r8, "r9_generator_steps": n_r9, "r7_loops": n_r7_loops, "entry_points": len(entries) - 1, "entry_points_ok": ok_entries, "to_chars_static_instances": n_static,
         "samples": samples[:6], "exhaustive": False,
     }
     return r.finish()
